@@ -404,6 +404,10 @@ func (handle *writeTxnHandle) Commit() ReadTxn {
 	// the root lock.
 	currentRoot := *db.root.Load()
 	root := txn.tableEntries
+	if len(currentRoot) > len(root) {
+		// Tables were registered after WriteTxn(). Carry them over.
+		root = append(root, currentRoot[len(root):]...)
+	}
 	var initChansToClose []chan struct{}
 
 	// Insert the modified tables into the root tree of tables.
